@@ -603,4 +603,82 @@ def Recv.feed (big : Blk → Bool) : Recv → List Part → Recv × List RecvOut
     let (r2, os) := Recv.feed big r1 ps
     (r2, o :: os)
 
+/-! ## Syncer service: the whole session behind the sequence filter
+
+`Svc` above keeps only the counters. `Sys σ` keeps the whole session as an opaque value of type `σ`
+(`isRunning`, `ctx`, `finder`, `hashFetcher`, `blockFetcher` — whatever they hold), so that
+statements about a stop request can quantify over *every* state a session can be in. The session's
+own behaviour is a parameter (`handle`); `Syncer.Receive`, `verifySeq`, `handleSyncStart`'s guards
+and `Reset` are transcribed. -/
+
+/-- A message as `Syncer.Receive` sees it: its kind, the sequence number it carries (meaningless for
+the kinds that carry none) and the rest of its content. -/
+structure Msg (π : Type) where
+  kind : MsgKind
+  seq : Nat
+  body : π
+
+/-- Outcome of a handler of the running session: carry on in a new session state, or `Reset`
+(the handler returned an error, or panicked and `RecoverSyncerSelf` reset the service). -/
+inductive Verdict (σ : Type)
+  | carryOn (s : σ)
+  | reset
+
+structure Sys (σ : Type) where
+  seq : Nat
+  sess : Option σ        -- none: `isRunning = false`, ctx/finder/hashFetcher/blockFetcher nil
+deriving DecidableEq
+
+/-- `NewSyncer`. -/
+def Sys.init {σ : Type} : Sys σ := ⟨1, none⟩
+
+/-- `Receive` followed by `handleMessage`. `start seq body` stands for `handleSyncStart` after the
+`isRunning` guard: `none` when the request is skipped (target not above the local best block),
+otherwise the fresh session created under the new sequence number `seq`. `handle` is what the
+running session does with an accepted message of any other kind. -/
+def Sys.recv {σ π : Type} (start : Nat → π → Option σ) (handle : σ → MsgKind → π → Verdict σ)
+    (v : Sys σ) (m : Msg π) : Sys σ :=
+  if !accepted v.seq v.sess.isSome m.kind m.seq then v
+  else
+    match m.kind with
+    | .syncStart =>
+      match v.sess with
+      | some _ => v
+      | none =>
+        match start (v.seq + 1) m.body with
+        | none => v
+        | some s => ⟨v.seq + 1, some s⟩
+    | .syncStop => ⟨v.seq, none⟩
+    | k =>
+      match v.sess with
+      | none => v
+      | some s =>
+        match handle s k m.body with
+        | .carryOn s' => ⟨v.seq, some s'⟩
+        | .reset => ⟨v.seq, none⟩
+
+/-- The service fed a list of messages. -/
+def Sys.feed {σ π : Type} (start : Nat → π → Option σ) (handle : σ → MsgKind → π → Verdict σ) :
+    Sys σ → List (Msg π) → Sys σ
+  | v, [] => v
+  | v, m :: ms => Sys.feed start handle (Sys.recv start handle v m) ms
+
+/-- Message content the correspondence harness uses (`sys …` lines). -/
+inductive SysBody
+  | none
+  | start (target best : Nat)    -- SyncStart{TargetNo}; `best` is the local best block at that moment
+  | fail                         -- FinderResult carrying an error
+deriving DecidableEq, Repr
+
+/-- `handleSyncStart`'s second guard, the session being represented by its target. -/
+def sysStart (_seq : Nat) : SysBody → Option Nat
+  | .start target best => if target ≤ best then none else some target
+  | _ => none
+
+/-- The only accepted non-stop message the harness sends to a running session is a failed
+`FinderResult` (→ `Reset(ErrFinderInternal)`). -/
+def sysHandle (s : Nat) : MsgKind → SysBody → Verdict Nat
+  | .finderResult, .fail => .reset
+  | _, _ => .carryOn s
+
 end Aergo.Sync
